@@ -115,3 +115,40 @@ Proof.
       try (destruct (snd x =? vx); cbn [after_del]); try lia;
       pose proof (del_sorted_length key (elements (b_root b))) as Hdl; rewrite Ef in Hdl; lia.
 Qed.
+
+(* ---------------------------------------------------------------- cursors *)
+From DV Require Import Proofs.BTreeCursor.
+
+Lemma cursor_seek_proof t root key before :
+  wf t root ->
+  exists c', cursor_seek root key before = Ok c' /\ cinv t root c' /\ c_parked c' = false /\
+             anchor_of c' = if before then AB key else AA key.
+Proof. intros (Ht & (h & Hw) & Hs). exact (cursor_seek_spec t Ht root h key before Hw Hs). Qed.
+
+Lemma cursor_next_proof t root c :
+  wf t root -> cinv t root c ->
+  exists bef aft c',
+    pos_ok (anchor_of c) (elements root) bef aft /\
+    cursor_next root c = Ok (c', hd_error aft) /\
+    cinv t root c' /\ c_parked c' = false /\
+    anchor_of c' = match aft with x :: _ => AA (fst x) | [] => AR end.
+Proof. intros (Ht & (h & Hw) & Hs). exact (cursor_next_spec t Ht root h c Hw Hs). Qed.
+
+Lemma cursor_prev_proof t root c :
+  wf t root -> cinv t root c ->
+  exists bef aft c',
+    pos_ok (anchor_of c) (elements root) bef aft /\
+    cursor_prev root c = Ok (c', hd_error (rev bef)) /\
+    cinv t root c' /\ c_parked c' = false /\
+    anchor_of c' = match rev bef with x :: _ => AB (fst x) | [] => AL end.
+Proof. intros (Ht & (h & Hw) & Hs). exact (cursor_prev_spec t Ht root h c Hw Hs). Qed.
+
+Lemma cursor_park_proof t root c :
+  cinv t root c -> anchor_of (cursor_park c) = anchor_of c /\ forall root', cinv t root' (cursor_park c).
+Proof. apply cursor_park_spec. Qed.
+
+Lemma cursor_boundary_proof t root c :
+  cinv t root (cursor_seek_first c) /\ anchor_of (cursor_seek_first c) = AL /\
+  cinv t root (cursor_seek_last c) /\ anchor_of (cursor_seek_last c) = AR /\
+  cinv t root new_cursor /\ anchor_of new_cursor = AL.
+Proof. apply cursor_boundary_spec. Qed.
